@@ -102,6 +102,43 @@ def gen(rng, tier):
                "truth": {"proto": "h1", "framing": "cl", "at": len(steps), "kind": "short-body", "tag": tag, "total": declared,
                          "progress": (True, total, False), "first": False},
                "sched": {"seed": rng.randrange(1 << 30)}, "horizon": 100.0}
+    # applications that fail before the request body has arrived: the client (which cannot know yet) keeps uploading on those streams, and
+    # a later upload on another stream of the same connection must still get through ("the connection's other streams keep working")
+    for k in range(6 if tier == "quick" else 200):
+        fb = FrameBuilder()
+        rspec = {"kind": "h2", "credit": "auto", "uploads_wait": True}
+        nfail = rng.choice([2, 3, 4])
+        per = rng.choice([25000, 33000, 60000])
+        kind = rng.choice(["raise", "return", "raise_group"])
+        base = 600000 + k * 10
+        blob = bytearray(client_preface(fb, rspec))
+        uploads, by_tag = {}, {}
+
+        def add(tag, sid, size):
+            nonlocal blob
+            blob += fb.headers(sid, [(b":method", b"POST"), (b":scheme", b"http"), (b":path", b"/t%d" % tag), (b":authority", b"h")], end_stream=False)
+            q, off = [], 0
+            body = pattern(("c5u", tag), 0, size)
+            while off < size:
+                n_ = min(16000, size - off)
+                q.append([fb.data(sid, body[off:off + n_], end_stream=(off + n_ >= size)), n_])
+                off += n_
+            uploads[sid] = q
+
+        for i in range(nfail):
+            by_tag[str(base + i)] = _inject([["recv_until_end"]], 0, kind)
+            add(base + i, 1 + 2 * i, per)
+        stag, ssid = base + 9, 1 + 2 * nfail
+        ssize = rng.choice([2000, 30000, 70000])
+        by_tag[str(stag)] = [["recv_until_end"], ["respond", 200, [], b"sib-%d" % stag]]
+        add(stag, ssid, ssize)
+        rspec["uploads"] = uploads
+        yield {"family": "h2.fail-then-late-upload." + kind, "backends": ["asyncio", "trio"], "config": {"keep_alive_timeout": 5000}, "conn": {},
+               "apps": {"default": [["recv_until_end"], ["respond", 200, [], b"d"]], "by_tag": by_tag},
+               "client": [["feed", bytes(blob)], ["settle"], ["react", "pump"], ["settle"]], "reactor": rspec,
+               "truth": {"proto": "h2", "at": 0, "kind": kind, "tag": base, "sid": 1, "total": 0, "progress": (False, 0, False),
+                         "siblings": [(stag, ssid)], "sibling_upload": ssize},
+               "sched": {"seed": rng.randrange(1 << 30)}, "horizon": 100.0}
     # the failure happens *inside* the application's first send: a response start the server refuses (raises into the application,
     # which lets it propagate) - no response had been started, so the client is owed the 500
     bad_starts = [
@@ -401,6 +438,14 @@ def check(case, obs, tally):
                 out.append({"clause": "truncated", "sig": "C05.not-terminated/h2/crash-after-response-start",
                             "detail": "crash mid-response (%s): stream %d has neither RST_STREAM nor END_STREAM at quiescence; connection open" % (kind, t["sid"])})
         tally.clause("siblings")
+        if t.get("sibling_upload"):
+            for stag, sid in t["siblings"]:
+                insts = [e[4]["inst"] for e in obs.app_events(kind="start") if e[4]["scope"].get("path") == "/t%d" % stag]
+                got = len(obs.apps.bodies.get(insts[0], b"")) if insts else -1
+                if got != t["sibling_upload"]:
+                    out.append({"clause": "siblings", "sig": "C05.sibling-upload-stalled/h2/%s" % kind,
+                                "detail": "after %s failed before reading its body and the client kept uploading on those streams, the upload on stream %d "
+                                          "delivered %d of %d bytes to its application" % (kind, sid, got, t["sibling_upload"])})
         for stag, sid in t["siblings"]:
             ss = rx.streams.get(sid)
             if ss is None or ss.status != 200 or bytes(ss.data) != b"sib-%d" % stag or ss.ended != 1:
